@@ -44,7 +44,18 @@ META = {
              "delegate object (class trait, add_trait instance trait shadowing it, instance-only trait, "
              "subclass override, listener-made clone, delegate swapped in after a read, shadow added "
              "and removed, two-hop chains same-kind and mixed) x 28 ordered pairs of differing domains; "
-             "values = those on which the two domains disagree plus a sample of the rest."),
+             "values = those on which the two domains disagree plus a sample of the rest. Stratum "
+             "'deepconv': declarations with a CONVERTING member (Float, Int, Complex, Bool, Range, the C* "
+             "casts, PrefixList, String) two or more trait levels deep -- 22 covering chains (Tuple in Tuple, "
+             "Tuple in Union / Either, Tuple as List item / Dict key / Dict value / Set item, ValidatedTuple "
+             "around and inside Tuple, Union / Either / List / Dict as a Tuple item) x the converting leaves, "
+             "plus random trees of depth <= 3 quick / 4 thorough -- x values BUILT FROM THE DECLARATION in 13 "
+             "patterns (all items exact; every item / every deep item / one single deep item an equal-valued "
+             "value of another type such as 1 for 1.0, True for 1, np.float64 for float; a deep conversion to "
+             "a non-equal value; outer-level conversion only; mixed; one invalid or protocol-raising item at "
+             "depth; wrong inner shape; tuple subclasses as inner containers; one inner tuple object in two "
+             "places), three routes each, the readback compared exact-type-first at every depth, and every "
+             "rejection repeated over a previously assigned valid value (which must stay)."),
     "phases": [{"name": "main", "flavour": "P", "shards": 16}],
     "gates": {
         "quick": {"evaluations": 80000, "accepted": 10000, "rejected": 30000, "converted": 1500,
@@ -54,7 +65,10 @@ META = {
                   "array_nonnative_rejected": 700, "array_view_accepted": 100,
                   "array_degenerate_accepted": 25,
                   "deferred_specs": 60, "deferred_judgements": 1700, "deferred_accepted": 1800,
-                  "deferred_rejected": 3000, "deferred_discriminating_nonclass": 500},
+                  "deferred_rejected": 3000, "deferred_discriminating_nonclass": 500,
+                  "deep_specs": 60, "deep_judgements": 1800, "deep_accepted": 1400,
+                  "deep_equal_converted_accepted": 800, "deep_identity_accepted": 170,
+                  "deep_subclass_accepted": 340, "deep_rejected": 450, "deep_reject_after_valid": 300},
         "thorough": {"evaluations": 1000000, "accepted": 100000, "rejected": 400000,
                      "converted": 15000, "passthrough_seen": 500, "no_effect_checked": 400000,
                      "families": 12, "family_judgements": 10000,
@@ -62,7 +76,11 @@ META = {
                      "array_nonnative_rejected": 75000, "array_view_accepted": 5000,
                      "array_degenerate_accepted": 1300,
                      "deferred_specs": 700, "deferred_judgements": 160000, "deferred_accepted": 90000,
-                     "deferred_rejected": 400000, "deferred_discriminating_nonclass": 20000},
+                     "deferred_rejected": 400000, "deferred_discriminating_nonclass": 20000,
+                     "deep_specs": 900, "deep_judgements": 54000, "deep_accepted": 41000,
+                     "deep_equal_converted_accepted": 23000, "deep_identity_accepted": 5000,
+                     "deep_subclass_accepted": 9800, "deep_rejected": 12500,
+                     "deep_reject_after_valid": 8900},
     },
     "assumptions": [
         "vf/reference.py (about 300 lines of per-type predicates written from the docstrings and "
@@ -565,3 +583,7 @@ def run(ctx):
     # ---- stratum "deferred": assignment through DelegatesTo / PrototypedFrom / Delegate, judged by
     # the trait governing the delegated-to attribute on that delegate object
     more.run_deferred(ctx, 0)
+    # ---- stratum "deepconv": converting members two or more trait levels deep (Tuple in Tuple /
+    # Union / Either / List / Dict / Set, ValidatedTuple) x values built from the declaration that
+    # need an equal-valued conversion exactly at the inner level; exact-type readback at every depth
+    more.run_deepconv(ctx, judge, 0)
